@@ -4,6 +4,7 @@ package c13task
 import (
 	"context"
 	"fmt"
+	"strings"
 	"sync"
 	"sync/atomic"
 	"testing"
@@ -66,13 +67,13 @@ func gen(t *rapid.T) Case {
 		// a long prioritized task begins: whoever gets the freed slot must not start before that task is over
 		c.Invs = nil
 		for i := 0; i < c.Concurrency; i++ {
-			c.Invs = append(c.Invs, Inv{Bodies: []Body{{UntilCancel: true, ReactUs: 150000}, {RunUs: 50}}})
+			c.Invs = append(c.Invs, Inv{Bodies: []Body{{UntilCancel: true, ReactUs: 250000}, {RunUs: 50}}})
 		}
 		nq := rapid.IntRange(1, 2).Draw(t, "queued")
 		for i := 0; i < nq; i++ {
 			c.Invs = append(c.Invs, Inv{DelayUs: 2000, Bodies: []Body{{RunUs: rapid.SampledFrom([]int{50, 1000}).Draw(t, "qrun")}}})
 		}
-		c.Prios = [][]Prio{{{DelayUs: 6000, HoldUs: 250000}}}
+		c.Prios = [][]Prio{{{DelayUs: 6000, HoldUs: 400000}}}
 	}
 	return c
 }
@@ -106,7 +107,23 @@ func init() {
 
 func us(n int) time.Duration { return time.Duration(n) * time.Microsecond }
 
+// run judges a case; the one rule that depends on wall-clock slack (body start time vs. registration time of a
+// prioritized task) is only reported when it fires three times in a row on the same case: on a busy machine a single
+// scheduling stall longer than the slack can fake it once, a wrong start decision fakes it every time.
 func run(c Case, ev *pbt.Ev) error {
+	err := runOnce(c, ev)
+	for i := 0; i < 2 && isStartTimeRule(err); i++ {
+		ev.Class("start-time-rule-rechecked")
+		err = runOnce(c, &pbt.Ev{})
+	}
+	return err
+}
+
+func isStartTimeRule(err error) bool {
+	return err != nil && strings.Contains(err.Error(), "executed its first statement when")
+}
+
+func runOnce(c Case, ev *pbt.Ev) error {
 	traceMu.Lock()
 	trace, traceSeq = nil, 0
 	traceMu.Unlock()
@@ -276,7 +293,7 @@ func run(c Case, ev *pbt.Ev) error {
 	// and the body's first statement are microseconds apart, scheduling hiccups aside: a prioritized task that was
 	// registered more than startSlack before a body's first statement and cannot have finished plus the silence
 	// period by then is a violation.
-	const startSlack = 60 * time.Millisecond
+	const startSlack = 150 * time.Millisecond
 	doneMu.Lock()
 	dones := append([]doneCall(nil), doneCalls...)
 	doneMu.Unlock()
